@@ -35,6 +35,7 @@ const (
 	budget     = 300  // Model.BUDGET: nor do listeners invoked after this many trace events
 	repMax     = 1200 // Model.REPMAX
 	drainMax   = 50
+	nLocal     = 4                      // Model.local_centres
 	stallAfter = 400 * time.Millisecond // without progress AND with the case goroutine parked
 )
 
@@ -77,7 +78,7 @@ func newWorld(caseNo int) *world {
 		caseNo:    caseNo,
 		locals:    map[int64]*event.LocalEventCenter{},
 		lights:    map[int64]*light.EventCenter{},
-		chanMode:  map[int64]bool{0: false, 1: true, 2: true},
+		chanMode:  map[int64]bool{0: false, 1: true, 2: true, 3: true},
 		progs:     map[int64][]hx.T{},
 		listeners: map[int64]*lst{},
 		recvs:     map[int64]*recvObj{},
@@ -85,7 +86,7 @@ func newWorld(caseNo int) *world {
 		nextTok:   1,
 		npub:      1,
 	}
-	for c := int64(0); c <= 2; c++ {
+	for c := int64(0); c <= nLocal-1; c++ {
 		w.locals[c] = event.NewLocalEventCenter(w.chanMode[c])
 	}
 	for c := int64(10); c <= 11; c++ {
@@ -189,7 +190,7 @@ func (w *world) recv(k int64) *recvObj {
 	return r
 }
 
-func isLocal(c int64) bool { return c >= 0 && c <= 2 }
+func isLocal(c int64) bool { return c >= 0 && c <= nLocal-1 }
 func isLight(c int64) bool { return c >= 10 && c <= 11 }
 
 // listeners of (c, n) that light's FindId / FindIdWithReceiver would match (Model.cb_match)
@@ -366,7 +367,7 @@ func (w *world) act(self *lst, a hx.T) {
 			event.GetGlobalEC().Publish(w.name(n), ifaces(args, 0)...)
 		}
 		qlens := []int64{}
-		for c := int64(0); c <= 2; c++ {
+		for c := int64(0); c <= nLocal-1; c++ {
 			qlens = append(qlens, int64(len(w.locals[c].GetChanEvent())))
 		}
 		w.emit(hx.C("VGPub", n, args, k, qlens))
@@ -403,6 +404,42 @@ func (w *world) op(o hx.T) {
 				return
 			}
 		}
+	case "ODiscard":
+		c, k := o.Int(0), clamp(o.Int(1), 0, repMax)
+		if !isLocal(c) {
+			w.emit("VNop")
+			return
+		}
+		// maximal runs (count, (name, args)) of the received events (Model.rle)
+		type run struct {
+			k    int64
+			n    int64
+			args []int64
+		}
+		var runs []run
+	recv:
+		for i := int64(0); i < k; i++ {
+			select {
+			case e := <-w.locals[c].GetChanEvent():
+				n, ok := w.names[e.EventName]
+				if !ok {
+					n = -1
+				}
+				a := ints(e.Args)
+				if m := len(runs); m > 0 && runs[m-1].n == n && same(runs[m-1].args, a) {
+					runs[m-1].k++
+				} else {
+					runs = append(runs, run{1, n, a})
+				}
+			default:
+				break recv
+			}
+		}
+		items := []any{}
+		for _, x := range runs {
+			items = append(items, hx.Pair{A: x.k, B: hx.Pair{A: x.n, B: hx.Norm(x.args)}})
+		}
+		w.emit(hx.C("VDrop", c, items))
 	case "OSetChan":
 		c, b := o.Int(0), o.Bool(1)
 		if !isLocal(c) {
